@@ -75,9 +75,77 @@ def rule_I1(ctx) -> None:
     ctx.floor("I1", "pythonize_* functions", n, 4)
 
 
+def rule_I2(ctx, rule: str = "I2") -> None:
+    """enum member names: (a) only a true prefix of the proto name is ever cut off (never a match found in the middle),
+    (b) what is left is not empty, (c) the enum compiler makes sure the members of one enum stay distinct"""
+    from ..sym import walk, calls
+    nam = ctx.repo.mod(M_NAMING)
+    fn = nam.func("pythonize_enum_member_name")
+    name = N(fn.args.args[0].arg)
+    paths = Interp(nam).run(fn)
+    ctx.count(len(paths))
+    bad_anchor = bad_empty = None
+    n_cut = 0
+    for p in paths:
+        if p.outcome != "return" or p.value is None:
+            continue
+        v = p.value
+        # slices of the incoming name inside the returned term
+        cuts = [t for t in walk(v) if t[0] in ("slice", "sub") and t[1] == name and t != name]
+        if not cuts:
+            continue
+        n_cut += 1
+        # (a) the path must have established name.startswith(P) and cut exactly len(P) characters
+        sw = [k for k, val in p.valuation.items() if val and k[0] == "call" and k[1][0] == "a" and k[1][1] == name and k[1][2] == "startswith" and len(k[2]) == 1]
+        anchored = False
+        for k in sw:
+            prefix = k[2][0]
+            want = ("call", N("len"), (prefix,), ())
+            if any(want in list(walk(c)) for c in cuts):
+                anchored = True
+        if not anchored:
+            bad_anchor = p
+        # (b) the remainder was tested for emptiness on this path
+        rem_tested = any(val and any(c in list(walk(k)) for c in cuts) and not (k[0] == "call" and k[1][0] == "a" and k[1][2] == "startswith") for k, val in p.valuation.items())
+        if not rem_tested:
+            bad_empty = p
+    uses_find = any(isinstance(n, ast.Call) and isinstance(n.func, ast.Attribute) and n.func.attr in ("find", "index", "rfind", "partition", "split") for n in ast.walk(fn))
+    if n_cut == 0:
+        ctx.proved(rule, "pythonize_enum_member_name:prefix-only", nam.loc(fn), "the proto name is never shortened")
+    elif bad_anchor is not None or uses_find:
+        ctx.refuted(rule, "pythonize_enum_member_name:prefix-only", "cut-not-anchored", nam.loc(fn),
+                    "the enum name is looked up anywhere in the value name and everything up to it is dropped: ZERO of enum E becomes RO, and values that share a tail "
+                    "(A_X_4, B_X_4 of enum X) collapse into one member, so the generated enum loses numbers of the schema", "enum E { ZERO = 0; NEG = -1; }")
+    else:
+        ctx.proved(rule, "pythonize_enum_member_name:prefix-only", nam.loc(fn), f"{n_cut} shortening paths, all behind startswith(prefix) and cut at len(prefix)")
+    if n_cut and bad_empty is not None:
+        ctx.refuted(rule, "pythonize_enum_member_name:non-empty", "remainder-untested", nam.loc(fn),
+                    "a value named exactly like its enum (or ENUM_) is shortened to the empty string: the generated member has no name", "enum Status { STATUS = 0; }")
+    else:
+        ctx.proved(rule, "pythonize_enum_member_name:non-empty", nam.loc(fn))
+    # (c) distinctness is enforced where the members of one enum are collected
+    mods = ctx.repo.mod("src/betterproto/plugin/models.py")
+    ec = mods.func("EnumDefinitionCompiler.__post_init__")
+    ctx.analysed("EnumDefinitionCompiler.__post_init__")
+    guard = None
+    for n in ast.walk(ec):
+        if isinstance(n, ast.Compare) and any(isinstance(x, ast.Call) and ast.unparse(x.func) == "len" for x in [n.left] + n.comparators):
+            txt = ast.unparse(n)
+            if "set(" in txt or "{" in txt or "Counter" in txt:
+                guard = n
+    if n_cut == 0 or guard is not None:
+        ctx.proved(rule, "EnumDefinitionCompiler:distinct-members", mods.loc(ec), "names are compared for distinctness" if guard is not None else "names are never shortened")
+    else:
+        ctx.refuted(rule, "EnumDefinitionCompiler:distinct-members", "no-distinctness-check", mods.loc(ec),
+                    "member names are shortened (prefix removal) but never checked for distinctness: FOO_A and A of enum Foo become the same member and one number disappears",
+                    "enum Foo { FOO_A = 0; A = 1; }")
+
+
 def run(ctx) -> None:
     ctx.rules_run.append("I1")
     rule_I1(ctx)
+    ctx.rules_run.append("I2")
+    rule_I2(ctx)
     from . import jsonrules
     ctx.rules_run += ["J4", "K2"]
     jsonrules.rule_J4(ctx)      # from_dict maps every key through safe_snake_case (the only decided part of the retraction clause)
